@@ -134,6 +134,17 @@ pub fn run(mut run: Run) -> i32 {
             expect!("Polygon::coordinate_position", pos3(pg.coordinate_position(&co(c))), ex_pos);
             expect!("Polygon contains Coord", pg.contains(&co(c)), ex_pos == 2);
             expect!("Polygon intersects Coord", pg.intersects(&co(c)), ex_pos != 0);
+            // the same ring written in the other direction (the upward- and downward-edge branches of the ring walk swap roles)
+            let ring_rev = LineString::new(vec![co(b.p), co(b.r), co(b.q), co(b.p)]);
+            expect!("coord_pos_relative_to_ring (reversed ring)", pos3(coord_pos_relative_to_ring(co(c), &ring_rev)), ex_pos);
+            expect!("Polygon::coordinate_position (reversed ring)", pos3(Polygon::new(ring_rev.clone(), vec![]).coordinate_position(&co(c))), ex_pos);
+            // as a hole of a big square: inside the hole = outside the polygon
+            {
+                let m = 1e17;
+                let big = LineString::new(vec![Coord { x: -m, y: -m }, Coord { x: m, y: -m }, Coord { x: m, y: m }, Coord { x: -m, y: m }, Coord { x: -m, y: -m }]);
+                let holed = Polygon::new(big, vec![ring_rev.clone()]);
+                expect!("Polygon::coordinate_position (ring as a hole)", pos3(holed.coordinate_position(&co(c))), 2 - ex_pos);
+            }
             let t = Triangle(co(b.p), co(b.q), co(b.r));
             expect!("Triangle::coordinate_position", pos3(t.coordinate_position(&co(c))), ex_pos);
             expect!("Triangle contains Coord", t.contains(&co(c)), ex_pos == 2);
@@ -390,6 +401,62 @@ pub fn run(mut run: Run) -> i32 {
             }
         }
     });
+    // the ends of the floating-point range: lattice configurations scaled (exactly) by 2^-600 and 2^600. Products of coordinate differences underflow /
+    // overflow there; comparisons and exactly collinear configurations must still be answered exactly. (Non-collinear triples are a known finding: the
+    // adaptive predicate is not underflow/overflow safe.)
+    {
+        let g3: Vec<(i64, i64)> = (0..3).flat_map(|x| (0..3).map(move |y| (x, y))).collect();
+        let n3 = g3.len();
+        run.stage("range-ends", n3 * n3 * n3 * 2, |idx, acc| {
+            let (e, t) = (if idx % 2 == 0 { -600 } else { 600 }, idx / 2);
+            let sc = 2f64.powi(e);
+            let (a, b, c) = (g3[t / (n3 * n3)], g3[(t / n3) % n3], g3[t % n3]);
+            let f = |p: (i64, i64)| Coord { x: p.0 as f64 * sc, y: p.1 as f64 * sc };
+            let o = ((b.0 - a.0) * (c.1 - a.1) - (b.1 - a.1) * (c.0 - a.0)).signum() as i32;
+            acc.class(format!("range-end 2^{} sign{}", e, o));
+            acc.sample(idx, || json!({"a": format!("{:?}", a), "b": format!("{:?}", b), "c": format!("{:?}", c), "scale": format!("2^{}", e)}));
+            let wit = |got: String| json!({"a": format!("{:?}", a), "b": format!("{:?}", b), "c": format!("{:?}", c), "scale": format!("2^{}", e), "got": got});
+            acc.evals += 1;
+            let got = osign(<f64 as GeoNum>::Ker::orient2d(f(a), f(b), f(c)));
+            if got != o {
+                if o != 0 && got == 0 {
+                    acc.viol(format!("orient2d reports Collinear for a non-collinear triple at magnitude 2^{} (products of coordinate differences {})", e, if e < 0 { "underflow" } else { "overflow" }), idx, || wit(got.to_string()));
+                } else {
+                    acc.viol(format!("orient2d wrong at magnitude 2^{}", e), idx, || wit(got.to_string()));
+                }
+            }
+            // exactly collinear configurations: c on segment a-b?
+            if o == 0 && a != b {
+                let on = c.0 >= a.0.min(b.0) && c.0 <= a.0.max(b.0) && c.1 >= a.1.min(b.1) && c.1 <= a.1.max(b.1);
+                acc.evals += 3;
+                let l = Line::new(f(a), f(b));
+                if l.intersects(&f(c)) != on {
+                    acc.viol(format!("Line intersects Coord wrong for exactly collinear points at magnitude 2^{}", e), idx, || wit((!on).to_string()));
+                }
+                // the collinear segment c - c+(b-a): disjoint from a-b unless it touches or overlaps
+                let d = (c.0 + (b.0 - a.0), c.1 + (b.1 - a.1));
+                let l2 = Line::new(f(c), f(d));
+                let (lo1, hi1, lo2, hi2) = (a.min(b), a.max(b), c.min(d), c.max(d));
+                let meet = !(hi1 < lo2 || hi2 < lo1);
+                if l.intersects(&l2) != meet || l2.intersects(&l) != meet {
+                    acc.viol(format!("Line intersects Line wrong for collinear segments at magnitude 2^{}", e), idx, || wit((!meet).to_string()));
+                }
+                // ring with the horizontal/vertical edge a-b: c on the edge's carrier line
+                if (a.0 == b.0 || a.1 == b.1) && a != b {
+                    let apex = if a.1 == b.1 { ((a.0 + b.0), a.1 + 5) } else { (a.0 + 5, (a.1 + b.1)) };
+                    let ring = LineString::new(vec![f(a), f(b), Coord { x: apex.0 as f64 * sc, y: apex.1 as f64 * sc }, f(a)]);
+                    let want = if on { 1 } else { 0 };
+                    let got = pos3(coord_pos_relative_to_ring(f(c), &ring));
+                    // off the edge but on its line the point is outside this triangle (apex is beyond the edge's extent only when...): decide exactly
+                    let exact_in = crate::bigf::point_in_ring(&[(a.0 as f64, a.1 as f64), (b.0 as f64, b.1 as f64), (apex.0 as f64, apex.1 as f64)], (c.0 as f64, c.1 as f64));
+                    let _ = want;
+                    if got != exact_in {
+                        acc.viol(format!("coord_pos_relative_to_ring wrong on the carrier line of an axis-parallel edge at magnitude 2^{}", e), idx, || wit(got.to_string()));
+                    }
+                }
+            }
+        });
+    }
     // point-in-triangle for every vertex order: all non-degenerate lattice triangles of the 4x4 lattice (every ordered triple = all 6 orders) x every
     // query point of the lattice extended by one step, f64 and i64: contains / intersects / coordinate_position against exact orientation signs
     let g4: Vec<(i64, i64)> = (0..4).flat_map(|x| (0..4).map(move |y| (x, y))).collect();
